@@ -169,7 +169,62 @@ fn check_main(a: &Args) -> i32 {
 
 /// Determinism of the simulator itself: every seed twice, at several shard counts; event-log
 /// hashes must be identical.
+/// The seams must be live: std's public API, called on a worker thread, has to see the simulated
+/// values and bump the probes. Dead seam => harness error, never a verdict.
+fn seamtest() -> Result<Vec<String>, String> {
+    let mut lines = vec![];
+    let mut seen: Vec<String> = vec![];
+    for (k, (seed, ncpu, slide)) in [(0u64, 0u64, 0u64), (7, 3, (192u64 << 20) + 4096), (8, 12, (320u64 << 20) + 8192), (7, 3, (192u64 << 20) + 4096)].iter().enumerate() {
+        let env = vec![
+            ("VERIF_ENV_SEED".to_string(), seed.to_string()),
+            ("VERIF_NCPU".to_string(), ncpu.to_string()),
+            ("VERIF_SLIDE_MMAP".to_string(), slide.to_string()),
+            ("VERIF_PROBE_SET".to_string(), format!("v{k}")),
+        ];
+        let mut p = proc::Proc::start(&env, None).map_err(|e| e.to_string())?;
+        p.set_clock(1_000_000 + k as i64, 5).map_err(|e| e.to_string())?;
+        p.set_pid(100 + k as i64).map_err(|e| e.to_string())?;
+        p.spawn_worker(0, 42).map_err(|e| e.to_string())?;
+        let l = p.probe(0).map_err(|e| e.to_string())?;
+        let st = p.stats().map_err(|e| e.to_string())?;
+        p.quit();
+        lines.push(format!("world{k}: {l}  probes: env={} cwd={} fs={} ncpu={} clock={} pid={} getrandom={}", st.env_reads_worker, st.cwd_reads_worker, st.fs_calls_worker, st.ncpu_reads_worker, st.clock_reads_worker, st.pid_reads_worker, st.getrandom_worker));
+        if st.env_reads_worker < 1 || st.cwd_reads_worker < 1 || st.fs_calls_worker < 1 || st.clock_reads_worker < 1 || st.pid_reads_worker < 1 || st.getrandom_worker < 1 {
+            return Err(format!("a seam is dead: {}", lines.last().unwrap()));
+        }
+        if !l.contains(&format!("now={}", 1_000_000 + k as i64)) || !l.contains(&format!("pid={}", 100 + k)) {
+            return Err(format!("simulated clock/pid not seen by the worker: {l}"));
+        }
+        if *ncpu > 0 && !l.contains(&format!("ncpu={ncpu} ")) {
+            return Err(format!("simulated cpu count not seen by the worker: {l}"));
+        }
+        seen.push(l);
+    }
+    // same world twice => identical observations, including the heap address
+    let strip = |s: &str| s.replace("v1", "v").replace("v3", "v").replace("now=1000001", "now").replace("now=1000003", "now").replace("pid=101", "pid").replace("pid=103", "pid");
+    if strip(&seen[1]) != strip(&seen[3]) {
+        return Err(format!("identical worlds observed different things:\n  {}\n  {}", seen[1], seen[3]));
+    }
+    let heap = |s: &str| s.split("heap=").nth(1).unwrap_or("").to_string();
+    if heap(&seen[0]) == heap(&seen[1]) && heap(&seen[1]) == heap(&seen[2]) {
+        return Err("address slide has no effect on heap addresses of workers".into());
+    }
+    Ok(lines)
+}
+
 fn selfcheck_main(a: &Args) -> i32 {
+    match seamtest() {
+        Ok(lines) => {
+            for l in lines {
+                println!("{l}");
+            }
+            println!("seam test OK");
+        },
+        Err(e) => {
+            eprintln!("HARNESS-ERROR: {e}");
+            return 2;
+        },
+    }
     let seeds = a.u64("seeds", 6);
     let runs = a.u64("runs", 48);
     let base = verif_seed(a);
@@ -225,6 +280,54 @@ fn main() {
                 eprintln!("usage: educe-sim replay <file>");
                 2
             },
+        },
+        "merge-evidence" => {
+            // fold the per-feature-configuration evidence files into the main one
+            let main_path = a.get("_0", "");
+            let Ok(t) = std::fs::read_to_string(&main_path) else {
+                eprintln!("cannot read {main_path}");
+                std::process::exit(2);
+            };
+            let Ok(mut j) = J::parse(&t) else { std::process::exit(2) };
+            let mut cfgs = vec![];
+            let mut extra_viol = 0i128;
+            let mut k = 1;
+            while let Some(spec) = a.map.get(&format!("_{k}")) {
+                k += 1;
+                let Some((name, path)) = spec.split_once('=') else { continue };
+                if path == "unbuildable" {
+                    cfgs.push(J::obj().set("name", J::s(name)).set("status", J::s("does not build with the hook enabled; skipped (C18's business)")));
+                    continue;
+                }
+                match std::fs::read_to_string(path).ok().and_then(|t| J::parse(&t).ok()) {
+                    Some(e) => {
+                        let c = e.get("coverage").cloned().unwrap_or(J::Null);
+                        extra_viol += e.get("violations").and_then(|x| x.int()).unwrap_or(0);
+                        cfgs.push(
+                            J::obj()
+                                .set("name", J::s(name))
+                                .set("evaluations", c.get("evaluations").cloned().unwrap_or(J::Null))
+                                .set("distinct_nontrivial", c.get("distinct_nontrivial").cloned().unwrap_or(J::Null))
+                                .set("simulated_runs", c.get("simulated_runs").cloned().unwrap_or(J::Null))
+                                .set("outcome_classes", c.get("outcome_classes").cloned().unwrap_or(J::Null))
+                                .set("violations", e.get("violations").cloned().unwrap_or(J::Null))
+                                .set("wall_s", e.get("wall_s").cloned().unwrap_or(J::Null)),
+                        );
+                    },
+                    None => cfgs.push(J::obj().set("name", J::s(name)).set("status", J::s("no evidence written"))),
+                }
+            }
+            let v0 = j.get("violations").and_then(|x| x.int()).unwrap_or(0);
+            if let Some(J::Obj(_)) = j.get("coverage") {
+                let mut c = j.get("coverage").cloned().unwrap();
+                c.put("feature_configurations", J::Arr(cfgs));
+                j.put("coverage", c);
+            }
+            j.put("violations", J::Int(v0 + extra_viol));
+            if std::fs::write(&main_path, j.to_string_pretty()).is_err() {
+                std::process::exit(2);
+            }
+            0
         },
         "plan" => {
             // print the (PRNG-free) scenario that run R of a batch with seed S executes
